@@ -430,6 +430,9 @@ func cmdCheck(args []string) int {
 		rc = 2
 	}
 	bounded, bviol := runBounded(prop, tier, work)
+	for _, b := range bounded {
+		knownHit = append(knownHit, b.Known...)
+	}
 	if bviol > 0 {
 		violations += bviol
 		rc = 1
